@@ -259,8 +259,13 @@ def runOp (cfs : List (Uri × Member)) (st : SwarmState) (op : Op) (sch : List N
   | .closeLinks => let (st', tr) := closeLinks cfs st; some (st', tr, none)
   | .sequential a f => let (tr, r) := sequential cfs a f; some (st, tr, r)
   | .openLinks conn =>
-    -- `if self._is_open: raise Exception('Already opened')`
-    if st.isOpen then some (st, [], some .alreadyOpened)
+    -- `if self._is_open: raise Exception('Already opened')`.  Where this guard sits is regenerated from the source: before
+    -- the `try` its raise leaves the swarm untouched; inside the `try` the raise would run the handler (close_links, re-raise)
+    if st.isOpen then
+      if Gen.C19.openGuardInTry then
+        let (st', tr) := closeLinks cfs st
+        some (st', tr, some .alreadyOpened)
+      else some (st, [], some .alreadyOpened)
     else
       match exec ⟨cfs, .openLinks, none, .openLink conn⟩ st sch with
       | some c => match c.main with
@@ -279,5 +284,20 @@ def runOp (cfs : List (Uri × Member)) (st : SwarmState) (op : Op) (sch : List N
       | .finished r => some ({ isOpen := c.swarmOpen, mem := c.mem }, c.trace, r)
       | _ => none
     | none => none
+
+/-- a history of swarm-wide calls on ONE Swarm object, each with its own schedule; returns the final state and the
+result of every call (`none` as soon as one schedule is not a finished execution of its call) -/
+def runHist (cfs : List (Uri × Member)) : SwarmState → List (Op × List Nat) → Option (SwarmState × List (Option Exc))
+  | st, [] => some (st, [])
+  | st, (op, sch) :: rest =>
+    match runOp cfs st op sch with
+    | none => none
+    | some (st', _, r) =>
+      match runHist cfs st' rest with
+      | none => none
+      | some (st'', rs) => some (st'', r :: rs)
+
+/-- a freshly constructed Swarm: `_is_open = False`, every SyncCrazyflie with `_is_link_open = False` -/
+def fresh : SwarmState := { isOpen := Gen.C19.initIsOpen, mem := fun _ => Gen.C19.scfInitIsOpen }
 
 end CfVerif.C19
